@@ -144,6 +144,15 @@ pub fn shapes(tier: Tier) -> Vec<Shape> {
             out.push(mk(&format!("{}-midtx-del-first-half", name), &big, vec![tx(ops), Action::Reopen], mid));
         }
     }
+    // the empty key as first entry of a two-level tree
+    {
+        let mut ops = vec![OpSpec::bucket("create", &[], "b"), OpSpec::put(&["b"], "", "w*300")];
+        for i in 0..7 {
+            ops.push(OpSpec::put(&["b"], &format!("s{:02}", 2 * i + 1), "w*300"));
+        }
+        out.push(mk("empty-key-two-level-committed", &d, vec![tx(ops.clone()), Action::Reopen], vec![]));
+        out.push(mk("empty-key-two-level-midtx", &d, vec![tx(ops), Action::Reopen], vec![OpSpec::del(&["b"], "s01"), OpSpec::put(&["b"], "s02", "v*8")]));
+    }
     // one uncommitted leaf with more than 2^16 entries (handled by `run_wide`)
     out.push(mk(&format!("wide-leaf-{}-entries-in-one-transaction", WIDE_N), &d, vec![], vec![]));
     out
